@@ -4,7 +4,7 @@ CHECK = dict(
     property='C06', level='exploration',
     families=[('shutdown', 1.0)],
     budget=dict(quick=50, thorough=900), max_runs=dict(quick=200_000, thorough=5_000_000),
-    rule=('each evaluation = one simulated run of the real server (initial sync, caught up, natural and '
+    rule=('runs use 1-3 daemon URLs; one motif shuts the server down during an outage of all / one URL (down, warming up, refusing) after retries have backed off and failed over; each evaluation = one simulated run of the real server (initial sync, caught up, natural and '
           'forced reorgs, cache-pressure flushes) with the real shutdown path (SIGTERM handler -> '
           'shutdown_event -> server_task.cancel()) fired at the (skip+1)-th scheduling step at which the '
           'server is in a chosen phase (block advance in flight, flush in flight inside / outside the '
@@ -15,7 +15,7 @@ CHECK = dict(
           'height must equal the height the block processor had completed; then the server is restarted, '
           'caught up and audited again. non-trivial = the cancel landed while >= 1 worker job was in '
           'flight and a reopen audit completed; distinct = distinct interleaving signature'),
-    assumptions=['SimDB/SimFS stand in for LevelDB and the file system', 'process exit = asyncio.run() '
+    assumptions=['a simulated plyvel module (under the real LevelDB class of electrumx.server.storage) and SimFS stand in for the LevelDB engine and the file system', 'process exit = asyncio.run() '
                  'epilogue (cancel leftovers, drain executor threads)',
                  'a SIGTERM before the handler is installed kills the process (default disposition)'],
     required_probes=['sigterm.phase.advance', 'sigterm.phase.advance_nonconnecting', 'sigterm.phase.flush_locked',
